@@ -29,6 +29,17 @@ class InducedSet:
         "Induced set cannot be computed\n"+
         "Line is not connected to a GFA instance\n"+
         "Line: {}".format(self))
+    return self._compute_induced_segments_set()
+
+  def _compute_induced_segments_set(self, visiting = ()):
+    # visiting: the sets whose computation led here (a set which contains
+    # itself, directly or through other sets, has no induced set)
+    if any(self is v for v in visiting):
+      raise gfapy.InconsistencyError(
+        "Induced set cannot be computed\n"+
+        "The set contains itself, directly or through other sets\n"+
+        "Line: {}".format(self))
+    visiting = visiting + (self,)
     segments_set = list()
     for item in self.items:
       if isinstance(item, str):
@@ -52,7 +63,7 @@ class InducedSet:
           segments_set.append(elem.line)
       elif isinstance(item, gfapy.line.group.Unordered):
         self._check_induced_set_elem_connected(item)
-        subset = item.induced_segments_set
+        subset = item._compute_induced_segments_set(visiting)
         assert(subset)
         for elem in subset:
           segments_set.append(elem)
